@@ -106,6 +106,7 @@ def _setup():
     logging.getLogger().setLevel(logging.ERROR)
     logging.getLogger("tsdate").setLevel(logging.ERROR)
     warnings.simplefilter("ignore")
+    workload.warm_up()
     return _M
 
 
